@@ -134,7 +134,7 @@ def prove(pid):
     # parse assumptions: blocks following "Print Assumptions" in order of theorems
     blocks = re.split(r"(?m)^(?=Closed under the global context|Axioms:)", out)
     blocks = [b for b in blocks if b.startswith("Closed under") or b.startswith("Axioms:")]
-    pa = re.findall(r"Print Assumptions\s+([A-Za-z0-9_'.]+)", strip_comments(open(vf).read()))
+    pa = re.findall(r"Print Assumptions\s+([A-Za-z0-9_']+)", strip_comments(open(vf).read()))
     for name, b in zip(pa, blocks):
         axs = []
         if b.startswith("Axioms:"):
